@@ -51,6 +51,61 @@ def parse_reply(r):
     return out
 
 
+class SolveFailed(Exception):
+    """Lcapy assembled the MNA system but could not solve it; `.out['matrix']` still carries the assembled system"""
+    def __init__(self, out, err):
+        Exception.__init__(self, '%s: %s' % (type(err).__name__, str(err)[:60]))
+        self.out = out
+        self.err = err
+
+
+def lcapy_entries(mat, S):
+    """non-zero entries of Lcapy's assembled A and Z by (row name, column name), exact; None when an entry cannot be evaluated"""
+    A, Z, nodes, brs, val, node_map = mat
+    names = ['n:' + n for n in nodes] + ['b:' + b for b in brs]
+    eps = [q for q in A.free_symbols if q.name in ('epsilon', 'eps')]
+    ea, ez = {}, {}
+    try:
+        for i in range(A.shape[0]):
+            for j in range(A.shape[1]):
+                x = A[i, j]
+                if x == 0:
+                    continue
+                x = x.subs({q: 0 for q in eps})
+                v = val(x)
+                if v != (0, 0):
+                    ea[(names[i], names[j])] = v
+            x = Z[i, 0]
+            if x != 0:
+                v = val(x)
+                if v != (0, 0):
+                    ez[names[i]] = v
+    except Exception:   # noqa
+        return None
+    return ea, ez, node_map
+
+
+def model_entries(rep, node_map):
+    """parse `ok A r,c=v ... Z r=v ...`; node names are mapped to Lcapy's canonical equipotential names"""
+    def canon(nm):
+        if nm.startswith('n:'):
+            return 'n:' + node_map.get(nm[2:], nm[2:])
+        return nm
+    ea, ez = {}, {}
+    mode = None
+    for t in rep.split()[1:]:
+        if t in ('A', 'Z'):
+            mode = t
+            continue
+        k, v = t.rsplit('=', 1)
+        if mode == 'A':
+            r, c = k.split(',')
+            ea[(canon(r), canon(c))] = norm(v)
+        else:
+            ez[canon(k)] = norm(v)
+    return ea, ez
+
+
 class Lc:
     def __init__(self):
         import lcapy
@@ -103,6 +158,12 @@ class Lc:
             return norm(g)
 
         out = {'key': str(key), 'kind': str(sub.kind), 'V': {}, 'J': {}, 'I': {}, 'is_source': {}}
+        out['matrix'] = (mna._A, mna._Z, [str(x) for x in sub.node_list[1:]], list(mna.unknown_branch_currents), val,
+                         {str(k_): str(v_) for k_, v_ in sub.node_map.items()})
+        try:
+            mna.Vdict
+        except Exception as e:   # noqa
+            raise SolveFailed(out, e)
         for n, v in mna.Vdict.items():
             out['V'][str(n)] = val(v)
         # internal nodes created by the expansion of opamps are numbered per Circuit instance: canonicalise by order
@@ -117,7 +178,6 @@ class Lc:
                 out['I'][str(name)] = val(i)
                 out['is_source'][str(name)] = bool(sub.elements[name].is_source) if name in sub.elements else False
         # top level API must agree with the sub-netlist for single-kind circuits (spot check on one node)
-        out['matrix'] = (mna._A, mna._Z, [str(x) for x in sub.node_list[1:]], list(mna.unknown_branch_currents), val)
         return out
 
 
@@ -185,14 +245,41 @@ def run(chk, replay=None):
         if not rep.startswith('ok'):
             chk.count('model', rep.split(':')[0][:40])
             chk.case((tuple(case['lines']), an), False)
-            if rep == 'singular':
-                return
         model = parse_reply(rep) if rep.startswith('ok') else None
         conv = 'passive'
         solver = 'DM'
+
+        def compare_matrix(mat):
+            # stamp-level correspondence: the assembled A and Z, entry by entry, whether or not the system is solvable
+            if ' opamp ' in body or mat is None:
+                return
+            mrep = drv.ask1('mna.matrix %s || %s' % (an, body))
+            if not mrep.startswith('ok'):
+                return
+            le = lcapy_entries(mat, L.sympy)
+            if le is None:
+                chk.count('matrix', 'not-evaluated')
+                return
+            la, lz, node_map = le
+            ma, mz = model_entries(mrep, node_map)
+            chk.count('matrix', 'compared')
+            chk.coverage['correspondence']['compared'] += 1
+            if la != ma or lz != mz:
+                chk.coverage['correspondence']['disagreements'] += 1
+                da = sorted(str(k_) for k_ in set(la) ^ set(ma)) + sorted('%s: lcapy %s model %s' % (k_, la[k_], ma[k_]) for k_ in set(la) & set(ma) if la[k_] != ma[k_])
+                dz = sorted('%s: lcapy %s model %s' % (k_, lz.get(k_), mz.get(k_)) for k_ in set(lz) | set(mz) if lz.get(k_) != mz.get(k_))
+                disagreements.append({'case': jcase, 'spoint': fstr(spoint) if spoint is not None else None,
+                                      'matrix_A_differs': da[:6], 'matrix_Z_differs': dz[:6]})
         try:
             with common.time_limit(60):
                 got = L.analyse(case, spoint, solver, conv)
+        except SolveFailed as e:
+            chk.count('lcapy-error', 'solve:' + str(e)[:50])
+            chk.case((tuple(case['lines']), an), False)
+            compare_matrix(e.out.get('matrix'))
+            if model is not None and len(chk.coverage['correspondence']['diagnostics']) < 8:
+                chk.coverage['correspondence']['diagnostics'].append('lcapy could not solve a circuit the model solves: %s' % case['lcapy'])
+            return
         except common.TimeLimit:
             chk.count('lcapy-error', 'time-limit')
             chk.case((tuple(case['lines']), an), False)
@@ -214,6 +301,7 @@ def run(chk, replay=None):
             for a_, b_ in zip(anon_l, anon_m):
                 got['V'][b_] = got['V'].pop(a_)
         anon_map = dict(zip(anon_l, anon_m)) if len(anon_l) == len(anon_m) else {}
+        compare_matrix(got.get('matrix'))
         chk.count('lcapy-kind', got['kind'] if not got['kind'].replace('.', '').replace('/', '').isdigit() else 'ac')
         chk.case((tuple(case['lines']), an), model is not None)
         chk.sample({'analysis': an, 'netlist': case['lcapy'], 'subs': jcase['subs']})
